@@ -250,4 +250,72 @@ theorem signedBounds_spec (s : SI) (hw : s.WF) (hnb : s.bottom = false) (hn : s.
     rw [hm2] at hl hu hxl hx1
     exact signed_arc_nostraddle _ _ _ _ hH hl hu hxl hnsP hx1
 
+/-- **`SLT`, `SLE`, `SGT`, `SGE` are sound** (all widths; operands as the constructor returns them) -/
+theorem scmp_sound (op : CmpOp) (hop : op = .slt ∨ op = .sle ∨ op = .sgt ∨ op = .sge) (a b : AV) (br : BoolRes)
+    (ha : a.si.WF) (hb : b.si.WF) (hbits : a.si.bits = b.si.bits) (hna : a.si.renorm = a.si) (hnb : b.si.renorm = b.si)
+    (h : applyCmp op a b = .ok br) (x y : Nat) (hx : a.si.mem x) (hy : b.si.mem y) :
+    br.has (concCmp op a.si.bits x y) = true := by
+  obtain ⟨ba, hba, hca⟩ := signedBounds_spec a.si ha hx.1 hna
+  obtain ⟨bb, hbb, hcb⟩ := signedBounds_spec b.si hb hy.1 hnb
+  obtain ⟨p, hp, hp1, hp2⟩ := hca x hx
+  obtain ⟨q, hq, hq1, hq2⟩ := hcb y hy
+  rw [← hbits] at hq1 hq2
+  rcases hop with h1 | h1 | h1 | h1 <;> subst h1
+  · simp only [applyCmp, SI.SLT, hba, hbb] at h
+    have : br = cmpWith ba bb ltT ltF := by cases h; rfl
+    subst this
+    apply cmpWith_sound ba bb ltT ltF p q hp hq
+    · intro ht; simp only [ltT, decide_eq_true_eq] at ht; simp only [concCmp, decide_eq_true_eq]; omega
+    · intro hf; simp only [ltF, ge_iff_le, decide_eq_true_eq] at hf; simp only [concCmp, decide_eq_false_iff_not]; omega
+  · simp only [applyCmp, SI.SLE, hba, hbb] at h
+    have : br = cmpWith ba bb leT leF := by cases h; rfl
+    subst this
+    apply cmpWith_sound ba bb leT leF p q hp hq
+    · intro ht; simp only [leT, decide_eq_true_eq] at ht; simp only [concCmp, decide_eq_true_eq]; omega
+    · intro hf; simp only [leF, gt_iff_lt, decide_eq_true_eq] at hf; simp only [concCmp, decide_eq_false_iff_not]; omega
+  · simp only [applyCmp, SI.SGT, hba, hbb] at h
+    have : br = cmpWith ba bb gtT gtF := by cases h; rfl
+    subst this
+    apply cmpWith_sound ba bb gtT gtF p q hp hq
+    · intro ht; simp only [gtT, gt_iff_lt, decide_eq_true_eq] at ht; simp only [concCmp, gt_iff_lt, decide_eq_true_eq]; omega
+    · intro hf; simp only [gtF, decide_eq_true_eq] at hf; simp only [concCmp, gt_iff_lt, decide_eq_false_iff_not]; omega
+  · simp only [applyCmp, SI.SGE, hba, hbb] at h
+    have : br = cmpWith ba bb geT geF := by cases h; rfl
+    subst this
+    apply cmpWith_sound ba bb geT geF p q hp hq
+    · intro ht; simp only [geT, ge_iff_le, decide_eq_true_eq] at ht; simp only [concCmp, ge_iff_le, decide_eq_true_eq]; omega
+    · intro hf; simp only [geF, decide_eq_true_eq] at hf; simp only [concCmp, ge_iff_le, decide_eq_false_iff_not]; omega
+
+/-- what the constructor returns is in constructor-normal form -/
+theorem new_renorm (b s : Nat) (l u : Int) (hb : 0 < b) : (SI.new b s l u).renorm = SI.new b s l u := by
+  unfold SI.renorm
+  rw [new_bottom]
+  simp only [Bool.false_eq_true, if_false, new_bits]
+  have hl := imod_lt l b
+  have hu := imod_lt u b
+  have hm := two_pow_pos' b
+  have h2 : 2 ≤ 2 ^ b := by
+    have : 2 ^ 1 ≤ 2 ^ b := Nat.pow_le_pow_right (by omega) hb
+    simpa using this
+  rw [new_eq b s l u]
+  generalize imod l b = l' at hl
+  generalize imod u b = u' at hu
+  by_cases h1 : l' = u'
+  · rw [if_pos h1]
+    subst h1
+    rw [new_eq]; simp [imod_of_lt _ _ hl]
+  · rw [if_neg h1]
+    by_cases h3 : l' = (u' + 1) % 2 ^ b ∧ s = 1
+    · rw [if_pos h3]
+      simp only []
+      rw [new_eq, imod_of_lt 0 b hm, imod_of_lt _ _ (by omega : 2 ^ b - 1 < 2 ^ b)]
+      have e : (2 ^ b - 1 + 1) % 2 ^ b = 0 := by
+        have : 2 ^ b - 1 + 1 = 2 ^ b := by omega
+        rw [this, Nat.mod_self]
+      rw [if_neg (by omega), e]
+      simp [h3.2]
+    · rw [if_neg h3]
+      simp only []
+      rw [new_eq, imod_of_lt _ _ hl, imod_of_lt _ _ hu, if_neg h1, if_neg h3]
+
 end Claripy.VSA
